@@ -53,10 +53,16 @@ def r10_2(ctx):
     f = P.own_method("SamplingMethod", "transcribe")
     sc = ctx.scope(f)
     n = ctx.norm(f)
-    p2 = [st for st in f.node.body if isinstance(st, ast.If) and ast.unparse(st.test).replace(" ", "") == "phase==2"]
-    if len(p2) != 1:
+    # the statements executed in phase 2, whatever way the phases are told apart
+    from ..ceval import run_path, Unknown as _Unknown
+    ph = f.params[2] if len(f.params) > 2 else "phase"
+    try:
+        done2, _ex = run_path(f.node.body, {ph: 2}, None, skip_raising_guards=True)
+    except _Unknown as e:
+        raise AnalysisError("SamplingMethod.transcribe: phase 2 path not decidable: %s" % e)
+    if not done2:
         raise AnalysisError("SamplingMethod.transcribe: phase==2 branch not found")
-    b = p2[0]
+    b = ast.If(test=ast.Constant(value=True), body=list(done2), orelse=[])
     events = []
 
     def collect(stmts, host, subst):
